@@ -11,6 +11,7 @@ import PoetryVerif.Proofs.VRangeWalk
 import PoetryVerif.Proofs.VRangeInv
 import PoetryVerif.Proofs.VRangeSelf
 import PoetryVerif.Proofs.VRangePredU
+import PoetryVerif.Proofs.VRangeSharp
 
 set_option linter.unusedSimpArgs false
 set_option linter.unusedVariables false
@@ -217,6 +218,56 @@ theorem C12_regular_partial {B : List Version} (hB : RegB B) (a b : VC) (ha : a.
   rw [h.1, h.2] at this
   cases i <;> simp [VC.isEmpty] at hemp
   simp [VC.allowsPlain, VC.flatten] at this
+
+/-! ## the predicates between two ranges on EVERY probe: where the boundary runs
+
+`allows_all` / `allows_any` between two ranges are the bound comparisons.  They are right at every probe that is fine
+for both ranges (`VRange.OKat`: regular for an exclusive lower end and for an inclusive upper end; an inclusive lower
+end and an exclusive upper end are plain comparisons on every version) — in particular on ALL versions for half-open
+ranges. -/
+
+/-- a "yes" of `allows_all` between two ranges is right at every probe fine for both -/
+theorem range_allows_all_sound_at (r s : VRange) (hr : r.WF) (hs : s.WF)
+    (h : RC.allowsAll (.rng r) (.rng s) = true) (p : Version) (hp : p.wf = true) (or' : r.OKat p) (os : s.OKat p)
+    (hsp : s.allows p = true) : r.allows p = true := by
+  simp only [RC.allowsAll, Bool.and_eq_true, Bool.not_eq_true'] at h
+  have hd := (VRange.allows_iff_den_at s p hs.1 hp os).1 hsp
+  exact (VRange.allows_iff_den_at r p hr.1 hp or').2
+    ⟨VRange.allowsLower_false h.1 p hd.1, VRange.allowsHigher_false h.2 p hd.2⟩
+
+/-- a "no" of `allows_any` between two ranges is right at every probe fine for both -/
+theorem range_allows_any_false_sound_at (r s : VRange) (hr : r.WF) (hs : s.WF)
+    (h : RC.allowsAny (.rng r) (.rng s) = .ok false) (p : Version) (hp : p.wf = true) (or' : r.OKat p)
+    (os : s.OKat p) : ¬ (r.allows p = true ∧ s.allows p = true) := by
+  rintro ⟨hap, hbp⟩
+  simp only [RC.allowsAny, VRange.isStrictlyHigher, Except.ok.injEq, Bool.not_eq_false', Bool.or_eq_true] at h
+  have hd1 := (VRange.allows_iff_den_at r p hr.1 hp or').1 hap
+  have hd2 := (VRange.allows_iff_den_at s p hs.1 hp os).1 hbp
+  rcases h with h | h
+  · exact VRange.strictlyLower_true h p ⟨hd2.2, hd1.1⟩
+  · exact VRange.strictlyLower_true h p ⟨hd1.2, hd2.1⟩
+
+/-- **between half-open ranges (`>=V`, `<V`, `>=V,<W`, `^V`, `~V`, `~=V`, `==V.*`) both predicates are right on ALL
+versions** -/
+theorem halfopen_predicates_sound (r s : VRange) (hr : r.WF) (hs : s.WF) (or' : r.HalfOpen) (os : s.HalfOpen)
+    (p : Version) (hp : p.wf = true) :
+    (RC.allowsAll (.rng r) (.rng s) = true → s.allows p = true → r.allows p = true) ∧
+    (RC.allowsAny (.rng r) (.rng s) = .ok false → ¬ (r.allows p = true ∧ s.allows p = true)) := by
+  have fine : ∀ (t : VRange), t.HalfOpen → t.OKat p := fun t ht =>
+    ⟨fun m hm => Or.inl (ht.1 m hm), fun M hM => Or.inl (ht.2 M hM)⟩
+  exact ⟨fun h => range_allows_all_sound_at r s hr hs h p hp (fine r or') (fine s os),
+    fun h => range_allows_any_false_sound_at r s hr hs h p hp (fine r or') (fine s os)⟩
+
+/-- the complement: an exclusive lower end.  `(>1.0).allows_all(>=1.0.post1)` answers yes — the comparison sees
+`1.0 < 1.0.post1` — although `>=1.0.post1` admits `1.0.post1`, which `>1.0` rejects (PEP 440: `>V` excludes the
+post-releases of `V`).  The probe is a sibling of the exclusive end. -/
+theorem counterexample_allows_all_sibling_gap :
+    let V := Version.mk' 0 [1, 0] none none none none
+    let W := Version.mk' 0 [1, 0] none (some ⟨.post, 1⟩) none none
+    RC.allowsAll (.rng ⟨some V, none, false, false⟩) (.rng ⟨some W, none, true, false⟩) = true ∧
+    (⟨some W, none, true, false⟩ : VRange).allows W = true ∧ (⟨some V, none, false, false⟩ : VRange).allows W = false := by
+  intro V W
+  exact ⟨by decide, by decide, by decide⟩
 
 /-- The property at full strength, for arbitrary constraints (unions included).  Proved above for
 non-union operands (`*_member`), range-vs-union containment and the soundness of the union merge walks
